@@ -17,6 +17,7 @@ package server
 
 import (
 	"context"
+	"errors"
 	"fmt"
 	"io"
 	"log/slog"
@@ -989,7 +990,39 @@ func newBfdConfigFromAPIStruct(a *api.BfdPeerConfig) (oc.BfdConfig, error) {
 	}, nil
 }
 
+// checkPeerNumberRanges rejects numbers that do not fit the configuration field they are stored in
+// (the API fields are uint32, the configuration uses uint8 / uint16): storing them modulo 2^8 or 2^16
+// would configure something the client did not ask for.
+func checkPeerNumberRanges(allowOwnAsn uint32, mh *api.EbgpMultihop, ttl *api.TtlSecurity, tr *api.Transport, gr *api.GracefulRestart, afiSafis []*api.AfiSafi) error {
+	check := func(name string, v uint32, max uint32) error {
+		if v > max {
+			return fmt.Errorf("invalid %s: %d (maximum %d)", name, v, max)
+		}
+		return nil
+	}
+	errs := []error{
+		check("allow-own-as", allowOwnAsn, math.MaxUint8),
+		check("ebgp-multihop ttl", mh.GetMultihopTtl(), math.MaxUint8),
+		check("ttl-security ttl-min", ttl.GetTtlMin(), math.MaxUint8),
+		check("transport remote-port", tr.GetRemotePort(), math.MaxUint16),
+		check("transport local-port", tr.GetLocalPort(), math.MaxUint16),
+		check("transport tcp-mss", tr.GetTcpMss(), math.MaxUint16),
+		check("transport ip-tos", tr.GetIpTos(), math.MaxUint8),
+		check("graceful-restart restart-time", gr.GetRestartTime(), math.MaxUint16),
+		check("graceful-restart deferral-time", gr.GetDeferralTime(), math.MaxUint16),
+	}
+	for _, af := range afiSafis {
+		errs = append(errs,
+			check("add-paths send-max", af.GetAddPaths().GetConfig().GetSendMax(), math.MaxUint8),
+			check("route-target-membership deferral-time", af.GetRouteTargetMembership().GetConfig().GetDeferralTime(), math.MaxUint16))
+	}
+	return errors.Join(errs...)
+}
+
 func newNeighborFromAPIStruct(a *api.Peer) (*oc.Neighbor, error) {
+	if err := checkPeerNumberRanges(a.GetConf().GetAllowOwnAsn(), a.EbgpMultihop, a.TtlSecurity, a.Transport, a.GracefulRestart, a.AfiSafis); err != nil {
+		return nil, err
+	}
 	pconf := &oc.Neighbor{}
 	if a.Conf != nil {
 		var err error
@@ -1171,6 +1204,10 @@ func newNeighborFromAPIStruct(a *api.Peer) (*oc.Neighbor, error) {
 }
 
 func newPeerGroupFromAPIStruct(a *api.PeerGroup) (*oc.PeerGroup, error) {
+	// allow_own_asn of a peer group is range-checked below
+	if err := checkPeerNumberRanges(0, a.EbgpMultihop, a.TtlSecurity, a.Transport, a.GracefulRestart, a.AfiSafis); err != nil {
+		return nil, err
+	}
 	pconf := &oc.PeerGroup{}
 	if a.Conf != nil {
 		pconf.Config.PeerAs = a.Conf.PeerAsn
